@@ -23,10 +23,12 @@ type exprPrinter struct {
 	root  map[string]any
 }
 
-func (p *exprPrinter) atRoot(n map[string]any) bool { return fmt.Sprintf("%p", p.root) == fmt.Sprintf("%p", n) }
+func (p *exprPrinter) atRoot(n map[string]any) bool {
+	return fmt.Sprintf("%p", p.root) == fmt.Sprintf("%p", n)
+}
 
 func nodeOf(v any) map[string]any { m, _ := v.(map[string]any); return m }
-func listOf(v any) []any         { l, _ := v.([]any); return l }
+func listOf(v any) []any          { l, _ := v.([]any); return l }
 
 var binPrec = map[string]int{"||": 1, "&&": 2, "==": 3, "!=": 3, "<": 4, "<=": 4, ">": 4, ">=": 4, "+": 5, "-": 5, "*": 6, "/": 6, "%": 6}
 
